@@ -48,6 +48,12 @@ Definition tab_fn {V} (t : list (str * option V)) (k : str) : option V :=
   match tab_get t k with Some v => v | None => None end.
 Definition tab_has {V} (t : list (str * V)) (k : str) : bool := match tab_get t k with Some _ => true | None => false end.
 
+(* all orders of a list (for the linearisation check of concurrent Gets; at most 5 elements) *)
+Fixpoint insert_all {A} (x : A) (l : list A) : list (list A) :=
+  match l with [] => [[x]] | y :: r => (x :: l) :: map (cons y) (insert_all x r) end.
+Fixpoint perms {A} (l : list A) : list (list A) :=
+  match l with [] => [[]] | x :: r => flat_map (insert_all x) (perms r) end.
+
 Inductive case :=
 (* forced schedule on the real HTTPProxy: thread i requests [paths_i] on a redirect route with
    template [tmpl]; [sched] is the replayed schedule in the model's actions (a whole Lookup =
@@ -62,6 +68,10 @@ Inductive case :=
 (* [threads] goroutines Get distinct patterns concurrently on a fresh cache: the hook's n and
    |m| afterwards, recovered panics, results that were not the requested compiled pattern *)
 | CGlobConc (size threads : nat) (impl_n impl_keys impl_panics impl_wrong : nat)
+(* the same with the state right after the concurrent Gets (each goroutine ONE Get of its own new pattern [pats],
+   on a cache prefilled sequentially with [pre]): it must be the state SOME serial order of the Gets produces
+   (the critical sections of the repaired cache are totally ordered) *)
+| CGlobLin (size : nat) (pre pats : list str) (impl_l : list str) (impl_h impl_n : nat) (impl_keys : list str)
 (* one goroutine, [k] picks on a route whose ring (target index per slot) is [ring], cursor c0 *)
 | CRRSeq (ring : list nat) (c0 : N) (k : nat) (impl : list nat) (impl_c : N)
 (* [threads] goroutines x [per] picks concurrently: picks per target, final cursor *)
@@ -125,6 +135,15 @@ Definition check_case (c : case) : N :=
       let same := Nat.eqb impl_wrong 0 && Nat.eqb impl_panics 0 && Nat.leb impl_n size && Nat.leb impl_keys size in
       let spec := same in
       verdict same spec None (Nat.ltb 1 threads)
+  | CGlobLin size pre pats impl_l impl_h impl_n impl_keys =>
+      let s0 := fst (gc_history (gc_new size) (map (fun p => (p, true)) pre)) in
+      let ok (order : list str) :=
+        let '(s, os) := gc_history s0 (map (fun p => (p, true)) order) in
+        all2 opt_out_eqb os (map (fun p => Ok p) order)
+        && list_eqb beq (c_l s) impl_l && Nat.eqb (c_h s) impl_h && Nat.eqb (c_n s) impl_n
+        && set_eq_str (m_keys (c_m s)) impl_keys in
+      let same := existsb ok (perms pats) in
+      verdict same same None (Nat.ltb 1 (length pats))
   | CRRSeq ring c0 k impl impl_c =>
       let '(tot, ts) := run rr_step_atomic (repeat O k) c0 [rr_init k] in
       let same := list_eqb Nat.eqb (map (slot_id ring) (all_seen ts)) impl && N.eqb tot impl_c in
